@@ -22,7 +22,8 @@ RULE = ("enumeration: for every script of the corpus (all verbs and transfer kin
         "exactly one final reply and it is 451 (never 2xx); if a 150 was sent the server closes the data connection "
         "(ledger) and a downloading peer sees EOF; afterwards the same session answers PWD and completes an upload + "
         "download round trip; the neighbour's transcript equals its solo transcript. Non-trivial = the fault hits "
-        "inside a transfer worker or a listing iteration (a 150 had been sent); distinct by (script, backend, fault set).")
+        "inside a transfer worker or a listing iteration (a 150 had been sent); distinct by (script, backend, fault set). "
+        "afterabort: enumerated (aborted transfer kind or idle ABOR or none) x (later transfer kind) x (failing backend call, 1st/2nd occurrence): 150 + 451 only, PWD next, silence; non-trivial = the fault fired in a session with an interrupted transfer in its past.")
 ASSUMPTIONS = [
     "faults are exceptions raised inside the backend call under universal_exception (as a failing filesystem would)",
     "after the faulted command the rest of the script is only required to be answered (its outcomes legitimately differ)",
@@ -454,6 +455,128 @@ def replay_abortfault(case):
     judge_abortfault(c, simnet.run(lambda loop: _abortfault(loop, *c)))
 
 
+# ---- faults in a session that has an ABOR in its past -----------------------------------------------------------------------
+SECOND = {"RETR": ("RETR /f", ["_open", "read", "close"]), "STOR": ("STOR /n2", ["_open", "write", "close"]),
+          "APPE": ("APPE /g", ["_open", "write", "close"]), "LIST": ("LIST /", ["list.next", "stat", "is_dir"]),
+          "MLSD": ("MLSD /", ["list.next", "stat"])}
+
+
+async def _afterabort(loop, first, second, op, nth):
+    """ABOR that interrupts a running `first`, answered 426 + 226; later `second` meets a backend fault in `op` (its nth call)."""
+    ctl = harness.Ctl()
+    ctl.delays = {"read": 0.2, "write": 0.2, "list.next": 0.2}
+    server = aioftp.Server(path_io_factory=instrument(aioftp.MemoryPathIO, ctl), block_size=8, wait_future_timeout=2)
+    await server.start(HOST, PORT)
+    harness.mem_populate(server, {"/": DIR, "/f": bytes(range(200)), "/g": b"old", "/a": b"1", "/b": b"2", "/d": DIR})
+    raw = harness.Raw(HOST, PORT, patience=6)
+    await raw.connect()
+    await raw.cmd("USER anonymous")
+    out = dict(first=[], second=[], follow=None, extra=None, data_eof=None, fired=[])
+    if first is not None:
+        await raw.cmd("EPSV")
+        dr, dw = await raw.open_data()
+        code, _ = await raw.cmd({"RETR": "RETR /f", "STOR": "STOR /n", "LIST": "LIST /", "NONE": "PWD"}[first])
+        out["first"].append(code)
+        if first == "STOR":
+            dw.write(b"x" * 40)
+        await asyncio.sleep(0.3)
+        raw.send("ABOR")
+        for _ in range(2 if code == "150" else 1):
+            c_, _l = await raw.reply()
+            out["first"].append(c_)
+        dw.close()
+        if out["first"] not in (["150", "426", "226"], ["257", "226"]):
+            out["skipped"] = True
+            raw.close()
+            await asyncio.wait_for(server.close(), 1000)
+            return out
+    await raw.cmd("EPSV")
+    dr, dw = await raw.open_data()
+    await asyncio.sleep(0.1)
+    seen = [0]
+
+    def scope(conn):
+        return True
+
+    base_hit = ctl.hit
+
+    async def hit(name, path=None, conn=None):
+        if name == op:
+            seen[0] += 1
+            if seen[0] == nth:
+                ctl.fail_names = {op}
+            else:
+                ctl.fail_names = set()
+        else:
+            ctl.fail_names = set()
+        return await base_hit(name, path, conn)
+
+    ctl.hit = hit
+    raw.send(SECOND[second][0])
+    if second in ("STOR", "APPE"):
+        dw.write(b"y" * 24)
+        dw.write_eof()
+    while len(out["second"]) < 4:
+        c_, _l = await raw.reply(8)
+        if c_ == "SILENCE":
+            break
+        out["second"].append(c_)
+        if c_ == "EOF":
+            break
+    ctl.hit = base_hit
+    ctl.fail_names = set()
+    out["fired"] = list(ctl.fired)
+    if "EOF" not in out["second"]:
+        out["follow"] = (await raw.cmd("PWD"))[0]
+        quiet, line = await raw.silence(3)
+        out["extra"] = None if quiet else repr(line)
+    _d, out["data_eof"] = await harness.read_all(dr, 3)
+    raw.close()
+    dw.close()
+    await asyncio.wait_for(server.close(), 1000)
+    return out
+
+
+def judge_afterabort(case, out):
+    first, second, op, nth = case
+    if out.get("skipped") or not out["fired"]:
+        return
+    detail = dict(aborted=first, then=second, failing=op, nth=nth, **out)
+    r = out["second"]
+    if "EOF" in r:
+        raise Violation(f"C13/afterabort/{second}/session_closed", detail)
+    if r not in (["150", "451"], ["451"]):
+        raise Violation(f"C13/afterabort/{second}/reply_sequence_" + "+".join(r or ["none"]), detail)
+    if out["follow"] != "257" or out["extra"] is not None:
+        raise Violation(f"C13/afterabort/{second}/session_unusable_afterwards", detail)
+    if r[0] == "150" and out["data_eof"] is False:
+        raise Violation(f"C13/afterabort/{second}/data_connection_left_open", detail)
+
+
+def afterabort_cases(tier):
+    return [(f, s_, op, nth) for f in ("RETR", "STOR", "LIST", "NONE", None) for s_, (line, ops) in SECOND.items() for op in ops
+            for nth in ((1, 2) if op in ("read", "write", "list.next", "stat") else (1,))]
+
+
+def part_afterabort(ctx):
+    for case in afterabort_cases(ctx.tier)[ctx.shard::ctx.nshards]:
+        out = simnet.run(lambda loop: _afterabort(loop, *case))
+        nt = bool(out["fired"]) and case[0] in ("RETR", "STOR", "LIST") and not out.get("skipped")
+        ctx.count(("afterabort",) + case, nt, sample=dict(aborted=case[0], then=case[1], failing=case[2], nth=case[3], first=out["first"],
+                                                          replies=out["second"], follow=out["follow"]),
+                  classes=["afterabort_first_" + str(case[0]), "afterabort_second_" + case[1], "fired" if out["fired"] else "not_reached"]
+                  + (["skipped"] if out.get("skipped") else []))
+        try:
+            judge_afterabort(case, out)
+        except Violation as v:
+            ctx.fail(v.sig, dict(kind="afterabort", case=list(case)), v.detail)
+
+
+def replay_afterabort(case):
+    c = tuple(case["case"])
+    judge_afterabort(c, simnet.run(lambda loop: _afterabort(loop, *c)))
+
+
 def pipelined_cases(tier):
     out = []
     for bi, batch in enumerate(BATCHES):
@@ -488,4 +611,4 @@ def replay_pipelined(case):
 
 
 def plan(tier):
-    return [("enumerate", 16), ("tapes", 8), ("pipelined", 4), ("abortfault", 4)]
+    return [("enumerate", 16), ("tapes", 8), ("pipelined", 4), ("abortfault", 4), ("afterabort", 8)]
